@@ -88,4 +88,23 @@ theorem reloadResult_eq (cur rec : Option SrvAttrs) : reloadResult cur rec = rec
   rcases cur with _ | c <;> rcases rec with _ | r <;> simp [reloadResult, reloadDecision]
   split <;> simp_all
 
+/-- Records that name other allocations do not matter: an allocation nobody names keeps its attributes. -/
+theorem allocAfter_untouched (records : List AllocRec) (name : Nat) (a : AllocAttrs)
+    (h : ∀ r ∈ records, r.name ≠ name) : allocAfter records name a = a := by
+  unfold allocAfter
+  have : records.filter (fun r => decide (r.name = name)) = [] := by
+    rw [List.filter_eq_nil_iff]; intro r hr; simpa using h r hr
+  rw [this]; rfl
+
+/-- The last record naming an allocation decides its rank, cap and reservation. -/
+theorem allocAfter_last (pre post : List AllocRec) (r : AllocRec) (a : AllocAttrs)
+    (hpost : ∀ x ∈ post, x.name ≠ r.name) :
+    (allocAfter (pre ++ r :: post) r.name a).rank = r.rank ∧
+    (allocAfter (pre ++ r :: post) r.name a).maxUtil = r.maxUtil ∧
+    (allocAfter (pre ++ r :: post) r.name a).reserved = r.reserved := by
+  unfold allocAfter
+  have hp : post.filter (fun x => decide (x.name = r.name)) = [] := by
+    rw [List.filter_eq_nil_iff]; intro x hx; simpa using hpost x hx
+  simp [List.filter_append, hp, List.foldl_append, applyRec]
+
 end TmVerif.LoaderDecode
